@@ -4,7 +4,7 @@ import ast
 from sa.loader import AnalysisError, norm, walk_local
 from sa.cfg import cfg_of
 from sa.callgraph import bind_args
-from .common import analysis, names_in
+from .common import analysis, names_in, resolve_local
 
 PROP = "C12"
 TECHNIQUE = "def-use provenance per public entry point (schema reaching a worker comes from parse_schema with the very name table handed to the worker); CFG dominance of the early-return copy of the embedded name table; data-dependence of the header schema on the name table filled by the parse"
@@ -146,7 +146,8 @@ def run(ctx):
         ctx.unrecognised("C12.R3", "header closure helper", gw.where(), "_inline_definitions not found (closure implemented differently)")
     else:
         rec_calls = [n for n in walk_local(helper.node) if isinstance(n, ast.Call) and isinstance(n.func, ast.Name) and n.func.id == helper.name]
-        from_table = [n for n in rec_calls if n.args and isinstance(n.args[0], ast.Name) and any(isinstance(s, ast.Assign) and any(isinstance(t, ast.Name) and t.id == n.args[0].id for t in s.targets) and "named_schemas[" in norm(s.value) for s in walk_local(helper.node))]
+        tblp = helper.pos_params[3] if len(helper.pos_params) > 3 else "named_schemas"
+        from_table = [n for n in rec_calls if n.args and f"{tblp}[" in norm(resolve_local(helper.node, n.args[0]))]
         ctx.check("C12.R3", "a definition taken from the name table is itself processed (references inside it are inlined too)", bool(from_table), helper.where(), "_inline_definitions: definition from named_schemas returned without recursion", "a chain Parent -> Child -> Grandchild of separately parsed pieces leaves 'Grandchild' undefined in the header")
         ok = any(isinstance(n, ast.If) and "in defined" in norm(n.test) for n in walk_local(helper.node)) and any(norm(n) == "defined.add(fullname)" for n in walk_local(helper.node) if isinstance(n, ast.Expr))
         ctx.check("C12.R3", "each name is defined once in the header (set of names defined so far)", ok, helper.where(), "_inline_definitions: defined-so-far bookkeeping", "a type reachable twice would be defined twice (redefined named type on read)")
